@@ -3,7 +3,9 @@ package props
 import (
 	"fmt"
 	"go/token"
+	"go/types"
 	"sort"
+	"strings"
 
 	"golang.org/x/tools/go/ssa"
 
@@ -109,12 +111,25 @@ var structC10 = func(c *Ctx) {
 	if fn == nil {
 		return
 	}
-	held := map[string]bool{} // receiver []byte fields assigned a copy of a NAL unit
-	clear := map[string][]*ssa.BasicBlock{}
+	// held: []byte fields of the receiver that are given a value (a copy of a parameter set);
+	// released: fields stored nil. A function (Payload, a closure, a helper) that releases one held
+	// field must release all of them: a set left behind would be re-sent with a later partner.
+	held := map[string]bool{}
+	clearIn := map[*ssa.Function]map[string]bool{}
+	seen := map[*ssa.Function]bool{}
 	var visit func(f *ssa.Function)
 	visit = func(f *ssa.Function) {
+		if f == nil || seen[f] || len(f.Blocks) == 0 {
+			return
+		}
+		seen[f] = true
 		for _, b := range f.Blocks {
 			for _, in := range b.Instrs {
+				if call, ok := in.(ssa.CallInstruction); ok {
+					if g := call.Common().StaticCallee(); g != nil && g.Pkg == fn.Pkg {
+						visit(g)
+					}
+				}
 				st, ok := in.(*ssa.Store)
 				if !ok {
 					continue
@@ -123,10 +138,21 @@ var structC10 = func(c *Ctx) {
 				if !ok {
 					continue
 				}
+				if sl, isSl := fa.Type().Underlying().(*types.Pointer).Elem().Underlying().(*types.Slice); !isSl {
+					continue
+				} else if b, isB := sl.Elem().Underlying().(*types.Basic); !isB || b.Kind() != types.Uint8 {
+					continue
+				}
+				if _, isRecv := fa.X.Type().Underlying().(*types.Pointer); !isRecv || !strings.Contains(fa.X.Type().String(), "H264Payloader") {
+					continue
+				}
 				name := core.FieldName(fa)
 				if core.IsNilConst(st.Val) {
-					clear[name] = append(clear[name], b)
-				} else if call, ok := st.Val.(*ssa.Call); ok && core.BuiltinName(call) == "append" {
+					if clearIn[f] == nil {
+						clearIn[f] = map[string]bool{}
+					}
+					clearIn[f][name] = true
+				} else {
 					held[name] = true
 				}
 			}
@@ -141,18 +167,34 @@ var structC10 = func(c *Ctx) {
 		names = append(names, k)
 	}
 	sortStrings(names)
-	ok := len(names) == 2
-	for _, nme := range names {
-		if len(clear[nme]) == 0 {
-			ok = false
+	ok := len(names) >= 2
+	released := map[string]bool{}
+	detail := fmt.Sprintf("held fields %v", names)
+	for f, cl := range clearIn {
+		any := false
+		for _, nme := range names {
+			if cl[nme] {
+				any = true
+				released[nme] = true
+			}
+		}
+		if !any {
+			continue
+		}
+		for _, nme := range names {
+			if !cl[nme] {
+				ok = false
+				detail += fmt.Sprintf("; %s releases some held fields but not %s", core.FuncName(f), nme)
+			}
 		}
 	}
-	// the releases happen together (same block)
-	if ok && clear[names[0]][0] != clear[names[1]][0] {
-		ok = false
+	for _, nme := range names {
+		if !released[nme] {
+			ok = false
+			detail += "; " + nme + " is never released"
+		}
 	}
-	r.Add("STRUCT.release", core.FuncName(fn), "held SPS and PPS are both released after the STAP-A", p.Position(fn.Pos()), ok,
-		fmt.Sprintf("held fields %v; nil stores per field: %d/%d", names, len(clear[first(names, 0)]), len(clear[first(names, 1)])))
+	r.Add("STRUCT.release", core.FuncName(fn), "held SPS and PPS are both released after the STAP-A", p.Position(fn.Pos()), ok, detail)
 }
 
 func first(s []string, i int) string {
